@@ -70,166 +70,210 @@ def tsSyncSearch (b : Bytes) : Nat → Nat → Option Nat
             ∧ b.getD (p + 7) 0 = PRIVATE_STREAM_1))
       if ok then some p else tsSyncSearch b fuel (p + 1)
 
-/-- header evaluation of the TS packet `q` (`q.length = avail >= 10`), from `b1 = p[1]` on -/
-def tsHeader (s : TsSt) (q : Bytes) : TsSt × Option Err :=
+/-- first checks on the TS header `q[1..3]`: `some true` = `goto skip_ts_pes_packet`,
+`some false` = `goto skip_ts_packet`, `none` = go on with the continuity_counter -/
+def tsHeaderCheck (s : TsSt) (q : Bytes) : Option Bool :=
   let g (i : Nat) := q.getD i 0
   let b1 := g 1
   let pid := (b1 * 256 + g 2) &&& 0x1FFF
   let b3 := g 3
-  if b1 &&& 0x80 ≠ 0 then (tsSkipPesPacket s q, none)
-  else if pid ≠ s.pid then (tsSkipPacket s q, none)
-  else if b3 &&& 0xC0 ≠ 0 then (tsSkipPesPacket s q, none)
+  if b1 &&& 0x80 ≠ 0 then some true                 -- transport_error_indicator
+  else if pid ≠ s.pid then some false
+  else if b3 &&& 0xC0 ≠ 0 then some true            -- transport_scrambling_control
   else
     let afc := b3 &&& 0x30
-    if afc = 0x20 then (tsSkipPacket s q, none)
-    else if afc ≠ 0x10 then (tsSkipPesPacket s q, none)
+    if afc = 0x20 then some false                   -- adaptation_field only
+    else if afc ≠ 0x10 then some true
+    else none
+
+/-- verdict of the continuity_counter test -/
+inductive ContV | ok | repeated | lost
+  deriving DecidableEq, Repr
+
+/-- `if (0 != ((ts_continuity ^ b3) & 0x0F)) { ... }` -/
+def tsContCheck (cont : Option Nat) (b3 : Nat) : ContV :=
+  match cont with
+  | none => .ok                                     -- -1: first continuity_counter we see
+  | some c =>
+    if (c ^^^ b3) &&& 0x0F ≠ 0 then
+      if ((c - 1) ^^^ b3) &&& 0x0F = 0 then .repeated else .lost
+    else .ok
+
+/-- `if (0 == ts_pes_todo) { start of a PES packet expected } else { no PUSI allowed }`;
+`none` = `goto skip_ts_pes_packet` -/
+def tsStart (s : TsSt) (q : Bytes) : Option TsSt :=
+  let g (i : Nat) := q.getD i 0
+  if s.pesTodo = 0 then
+    if (g 4 ||| g 5) ≠ 0 ∨ g 6 ≠ 1 ∨ g 7 ≠ PRIVATE_STREAM_1 then none
     else
-      -- continuity_counter
-      let contRes : Option TsSt :=       -- none: go on with the payload
-        match s.cont with
-        | none => none
-        | some c =>
-          if (c ^^^ b3) &&& 0x0F ≠ 0 then
-            if ((c - 1) ^^^ b3) &&& 0x0F = 0 then some (tsSkipPacket s q)
-            else some (tsSkipPesPacket { s with cont := some (b3 + 1) } q)
-          else none
-      match contRes with
-      | some s' => (s', none)
+      -- `p[8] * 256 + p[9]` with `uint8_t` reads (the model's byte lists are over Nat)
+      let packetLength := (g 8 % 256) * 256 + g 9 % 256
+      if packetLength < 178 then none
+      else some { s with pes := [], pesTodo := packetLength + 6 }
+  else if g 1 &&& 0x40 ≠ 0 then none
+  else some s
+
+/-- copy the payload bytes that are already in `ts_buffer` (`q[4 ..]`) -/
+def tsCopy (s : TsSt) (q : Bytes) : TsSt × Option Err :=
+  let avail := q.length
+  if avail ≤ 188 then
+    let consume := min s.pesTodo 184
+    let fragment := min (avail - 4) consume
+    if s.pes.length + fragment > PES_BUF_SIZE then (s, some (.oob "ts_pes_copy_header"))
+    else
+      (tsAdvance { s with pes := s.pes ++ (q.drop 4).take fragment, pesTodo := s.pesTodo - fragment,
+                          consume := consume - fragment } q false, none)
+  else
+    let fragment := min s.pesTodo 184
+    if s.pes.length + fragment > PES_BUF_SIZE then (s, some (.oob "ts_pes_copy_resync"))
+    else
+      (tsAdvance { s with pes := s.pes ++ (q.drop 4).take fragment, pesTodo := s.pesTodo - fragment }
+         q false, none)
+
+/-- header evaluation of the TS packet `q` (`q.length = avail >= 10`), from `b1 = p[1]` on -/
+def tsHeader (s : TsSt) (q : Bytes) : TsSt × Option Err :=
+  match tsHeaderCheck s q with
+  | some true => (tsSkipPesPacket s q, none)
+  | some false => (tsSkipPacket s q, none)
+  | none =>
+    let b3 := q.getD 3 0
+    match tsContCheck s.cont b3 with
+    | .repeated => (tsSkipPacket s q, none)
+    | .lost => (tsSkipPesPacket { s with cont := some (b3 + 1) } q, none)
+    | .ok =>
+      match tsStart { s with cont := some (b3 + 1) } q with
+      | none => (tsSkipPesPacket { s with cont := some (b3 + 1) } q, none)
+      | some s1 => tsCopy s1 q
+
+/-- outcome of one input-consuming block of the loop body on the unread input `rest` -/
+inductive Ph where
+  /-- the function returns: "need more data" (all of `rest` was consumed) or a fault -/
+  | stop (s : TsSt) (k : Stop)
+  /-- `n` bytes of `rest` consumed, fall through to the next block -/
+  | go (s : TsSt) (n : Nat)
+  deriving DecidableEq, Repr
+
+/-- end of block A once all payload of the TS packet was copied (`s1`, `n` bytes consumed):
+`if (0 == ts_pes_todo)` the PES packet is complete: look at its header, set up
+`ts_frame_bp / ts_frame_todo` -/
+def tsPesDone (s1 : TsSt) (n : Nat) : Ph :=
+  if s1.pesTodo = 0 then
+    if s1.pes.length < 46 then .stop s1 (.fault (.oob "ts_pes_header"))
+    else match validHeader s1.fs (s1.pes.take 46) with
+      | none => .go { s1 with fs := { s1.fs with newFrame := true }, frameRest := [] } n
+      | some fs' =>
+        .go { s1 with fs := { fs' with frame := { fs'.frame with nDu := 0 } }, frameRest := s1.pes.drop 46 } n
+  else .go s1 n
+
+/-- A. `if (consume > 0) { ... }`: copy TS payload into `pes_buffer` -/
+def tsPhaseA (s : TsSt) (rest : Bytes) : Ph :=
+  if s.consume > 0 then
+    if s.consume > rest.length then
+      if s.pes.length + rest.length > PES_BUF_SIZE then .stop s (.fault (.oob "ts_pes_copy_all"))
+      else if s.pesTodo < rest.length then .stop s (.fault (.assertFail "ts_pes_todo_underflow"))
+      else .stop { s with pes := s.pes ++ rest, pesTodo := s.pesTodo - rest.length,
+                          consume := s.consume - rest.length } .needMore
+    else
+      if s.pes.length + s.consume > PES_BUF_SIZE then .stop s (.fault (.oob "ts_pes_copy"))
+      else if s.pesTodo < s.consume then .stop s (.fault (.assertFail "ts_pes_todo_underflow"))
+      else
+        tsPesDone { s with pes := s.pes ++ rest.take s.consume, pesTodo := s.pesTodo - s.consume, consume := 0 }
+          s.consume
+  else .go s 0
+
+/-- B. `if (ts_frame_todo > 0) { ... }`: extract data units from the PES packet in `pes_buffer` -/
+def tsPhaseB (hasCb skipEmpty : Bool) (s : TsSt) : TsSt × List FrameOut × Option Stop :=
+  if s.frameRest.length > 0 then
+    match pesPacketFrame 3 hasCb skipEmpty s.fs s.frameRest with
+    | (fs1, outs, .callback, rest) => ({ s with fs := fs1, frameRest := rest }, outs, some .callback)
+    | (fs1, outs, .fault e, rest) => ({ s with fs := fs1, frameRest := rest }, outs, some (.fault e))
+    | (fs1, outs, .err, _) => ({ s with fs := { fs1 with newFrame := true }, frameRest := [] }, outs, none)
+    | (fs1, outs, .done, rest) => ({ s with fs := fs1, frameRest := rest }, outs, none)
+  else (s, [], none)
+
+/-- C. skip over `ts_wrap.skip` bytes -/
+def tsPhaseC (s : TsSt) (rest : Bytes) : Ph :=
+  if s.skip > rest.length then .stop { s with skip := s.skip - rest.length } .needMore
+  else .go { s with skip := 0 } s.skip
+
+/-- D. copy `ts_wrap.lookahead` bytes into `ts_buffer` -/
+def tsPhaseD (s : TsSt) (rest : Bytes) : Ph :=
+  if s.lookahead > rest.length then
+    if s.tsBuf.length + rest.length > TS_BUF_SIZE then .stop s (.fault (.oob "ts_buf_copy_all"))
+    else .stop { s with tsBuf := s.tsBuf ++ rest, lookahead := s.lookahead - rest.length } .needMore
+  else if s.tsBuf.length + s.lookahead > TS_BUF_SIZE then .stop s (.fault (.oob "ts_buf_copy"))
+  else .go { s with tsBuf := s.tsBuf ++ rest.take s.lookahead } s.lookahead
+
+/-- E. everything after the copy: sync check / sync search, header evaluation (no input is read) -/
+def tsPhaseE (s : TsSt) : TsSt × TsK :=
+  let avail := s.tsBuf.length
+  if s.inSync then
+    if avail < TS_HEADER_LOOKAHEAD then (s, .stop (.fault (.oob "ts_header_read")))
+    else if s.tsBuf.getD 0 0 ≠ 0x47 then
+      if avail > TS_SYNC_SEARCH_LOOKAHEAD then (s, .stop (.fault (.assertFail "ts_lookahead_underflow")))
+      else
+        ({ s with inSync := false, fs := { s.fs with newFrame := true }, pesTodo := 0, consume := 0,
+                  cont := none, lookahead := TS_SYNC_SEARCH_LOOKAHEAD - avail }, .cont)
+    else
+      match tsHeader s s.tsBuf with
+      | (s', none) => (s', .cont)
+      | (s', some e) => (s', .stop (.fault e))
+  else
+    if avail < TS_SYNC_SEARCH_LOOKAHEAD then
+      (s, .stop (.fault (.assertFail "ts_sync_avail")))   -- assert (avail >= ...)
+    else
+      match tsSyncSearch s.tsBuf 189 0 with
       | none =>
-        let s := { s with cont := some (b3 + 1) }
-        let start : Option TsSt :=         -- none: skip_ts_pes_packet
-          if s.pesTodo = 0 then
-            if (g 4 ||| g 5) ≠ 0 ∨ g 6 ≠ 1 ∨ g 7 ≠ PRIVATE_STREAM_1 then none
-            else
-              let packetLength := g 8 * 256 + g 9
-              if packetLength < 178 then none
-              else some { s with pes := [], pesTodo := packetLength + 6 }
-          else if b1 &&& 0x40 ≠ 0 then none
-          else some s
-        match start with
-        | none => (tsSkipPesPacket s q, none)
-        | some s =>
-          let avail := q.length
-          if avail ≤ 188 then
-            let consume := min s.pesTodo 184
-            let fragment := min (avail - 4) consume
-            if s.pes.length + fragment > PES_BUF_SIZE then (s, some (.oob "ts_pes_copy_header"))
-            else
-              (tsAdvance { s with pes := s.pes ++ (q.drop 4).take fragment, pesTodo := s.pesTodo - fragment,
-                                  consume := consume - fragment } q false, none)
-          else
-            let fragment := min s.pesTodo 184
-            if s.pes.length + fragment > PES_BUF_SIZE then (s, some (.oob "ts_pes_copy_resync"))
-            else
-              (tsAdvance { s with pes := s.pes ++ (q.drop 4).take fragment, pesTodo := s.pesTodo - fragment }
-                 q false, none)
-
-/-- one pass through the `for (;;)` body of `demux_ts_packet`: (state, frames, new offset, outcome) -/
-def tsIter (hasCb skipEmpty : Bool) (s : TsSt) (buf : Bytes) (si : Nat) : TsSt × List FrameOut × Nat × TsK :=
-  let sLeft := buf.length - si
-  -- A. copy TS payload into pes_buffer
-  let a : TsSt × Nat × Option TsK :=
-    if s.consume > 0 then
-      if s.consume > sLeft then
-        if s.pes.length + sLeft > PES_BUF_SIZE then (s, si, some (.stop (.fault (.oob "ts_pes_copy_all"))))
-        else if s.pesTodo < sLeft then (s, si, some (.stop (.fault (.assertFail "ts_pes_todo_underflow"))))
-        else ({ s with pes := s.pes ++ buf.drop si, pesTodo := s.pesTodo - sLeft, consume := s.consume - sLeft },
-              si + sLeft, some (.stop .needMore))
-      else
-        if s.pes.length + s.consume > PES_BUF_SIZE then (s, si, some (.stop (.fault (.oob "ts_pes_copy"))))
-        else if s.pesTodo < s.consume then (s, si, some (.stop (.fault (.assertFail "ts_pes_todo_underflow"))))
+        let avail := avail - 188
+        if avail > TS_SYNC_SEARCH_LOOKAHEAD then (s, .stop (.fault (.assertFail "ts_lookahead_underflow")))
+        else ({ s with tsBuf := s.tsBuf.drop 188, lookahead := TS_SYNC_SEARCH_LOOKAHEAD - avail }, .cont)
+      | some p =>
+        let q := s.tsBuf.drop p
+        if q.length < TS_HEADER_LOOKAHEAD then (s, .stop (.fault (.oob "ts_header_read_sync")))
         else
-          let s1 := { s with pes := s.pes ++ (buf.drop si).take s.consume, pesTodo := s.pesTodo - s.consume,
-                             consume := 0 }
-          let si1 := si + s.consume
-          if s1.pesTodo = 0 then
-            if s1.pes.length < 46 then (s1, si1, some (.stop (.fault (.oob "ts_pes_header"))))
-            else match validHeader s1.fs (s1.pes.take 46) with
-              | none => ({ s1 with fs := { s1.fs with newFrame := true }, frameRest := [] }, si1, none)
-              | some fs' =>
-                ({ s1 with fs := { fs' with frame := { fs'.frame with nDu := 0 } }, frameRest := s1.pes.drop 46 },
-                 si1, none)
-          else (s1, si1, none)
-    else (s, si, none)
-  match a with
-  | (s, si, some k) => (s, [], si, k)
-  | (s, si, none) =>
-    -- B. extract data units from the PES packet in pes_buffer
-    let b : TsSt × List FrameOut × Option TsK :=
-      if s.frameRest.length > 0 then
-        match pesPacketFrame 3 hasCb skipEmpty s.fs s.frameRest with
-        | (fs1, outs, .callback, rest) => ({ s with fs := fs1, frameRest := rest }, outs, some (.stop .callback))
-        | (fs1, outs, .fault e, rest) => ({ s with fs := fs1, frameRest := rest }, outs, some (.stop (.fault e)))
-        | (fs1, outs, .err, _) => ({ s with fs := { fs1 with newFrame := true }, frameRest := [] }, outs, none)
-        | (fs1, outs, .done, rest) => ({ s with fs := fs1, frameRest := rest }, outs, none)
-      else (s, [], none)
-    match b with
-    | (s, outs, some k) => (s, outs, si, k)
-    | (s, outs, none) =>
-      let sLeft := buf.length - si
-      -- C. skip
-      if s.skip > sLeft then ({ s with skip := s.skip - sLeft }, outs, si + sLeft, .stop .needMore)
-      else
-        let si := si + s.skip
-        let sLeft := sLeft - s.skip
-        let s := { s with skip := 0 }
-        -- D. lookahead bytes into ts_buffer
-        let lookahead := s.lookahead
-        if lookahead > sLeft then
-          if s.tsBuf.length + sLeft > TS_BUF_SIZE then (s, outs, si, .stop (.fault (.oob "ts_buf_copy_all")))
-          else ({ s with tsBuf := s.tsBuf ++ buf.drop si, lookahead := lookahead - sLeft }, outs, si + sLeft,
-                .stop .needMore)
-        else if s.tsBuf.length + lookahead > TS_BUF_SIZE then (s, outs, si, .stop (.fault (.oob "ts_buf_copy")))
-        else
-          let s := { s with tsBuf := s.tsBuf ++ (buf.drop si).take lookahead }
-          let si := si + lookahead
-          let avail := s.tsBuf.length
-          if s.inSync then
-            if avail < TS_HEADER_LOOKAHEAD then (s, outs, si, .stop (.fault (.oob "ts_header_read")))
-            else if s.tsBuf.getD 0 0 ≠ 0x47 then
-              if avail > TS_SYNC_SEARCH_LOOKAHEAD then
-                (s, outs, si, .stop (.fault (.assertFail "ts_lookahead_underflow")))
-              else
-                ({ s with inSync := false, fs := { s.fs with newFrame := true }, pesTodo := 0, consume := 0,
-                          cont := none, lookahead := TS_SYNC_SEARCH_LOOKAHEAD - avail }, outs, si, .cont)
-            else
-              match tsHeader s s.tsBuf with
-              | (s', none) => (s', outs, si, .cont)
-              | (s', some e) => (s', outs, si, .stop (.fault e))
-          else
-            if avail < TS_SYNC_SEARCH_LOOKAHEAD then
-              (s, outs, si, .stop (.fault (.assertFail "ts_sync_avail")))   -- assert (avail >= ...)
-            else
-              match tsSyncSearch s.tsBuf 189 0 with
-              | none =>
-                let avail := avail - 188
-                if avail > TS_SYNC_SEARCH_LOOKAHEAD then
-                  (s, outs, si, .stop (.fault (.assertFail "ts_lookahead_underflow")))
-                else
-                  ({ s with tsBuf := s.tsBuf.drop 188, lookahead := TS_SYNC_SEARCH_LOOKAHEAD - avail },
-                   outs, si, .cont)
-              | some p =>
-                let q := s.tsBuf.drop p
-                if q.length < TS_HEADER_LOOKAHEAD then (s, outs, si, .stop (.fault (.oob "ts_header_read_sync")))
-                else
-                  match tsHeader { s with inSync := true } q with
-                  | (s', none) => (s', outs, si, .cont)
-                  | (s', some e) => (s', outs, si, .stop (.fault e))
+          match tsHeader { s with inSync := true } q with
+          | (s', none) => (s', .cont)
+          | (s', some e) => (s', .stop (.fault e))
 
-/-- `demux_ts_packet` -/
-def tsLoop : Nat → Bool → Bool → TsSt → Bytes → Nat → TsSt × List FrameOut × Nat × Stop
-  | 0, _, _, s, _, si => (s, [], si, .fault (.assertFail "ts_loop_fuel"))
-  | fuel + 1, hasCb, skipEmpty, s, buf, si =>
-    match tsIter hasCb skipEmpty s buf si with
-    | (s', outs, si', .stop r) => (s', outs, si', r)
-    | (s', outs, si', .cont) =>
-      let (s2, outs2, si2, r) := tsLoop fuel hasCb skipEmpty s' buf si'
-      (s2, outs ++ outs2, si2, r)
+/-- one pass through the `for (;;)` body of `demux_ts_packet` on the unread input `rest`:
+(state, frames, bytes consumed, outcome) -/
+def tsStep (hasCb skipEmpty : Bool) (s : TsSt) (rest : Bytes) : TsSt × List FrameOut × Nat × TsK :=
+  match tsPhaseA s rest with
+  | .stop s' k => (s', [], rest.length, .stop k)
+  | .go s1 n1 =>
+    match tsPhaseB hasCb skipEmpty s1 with
+    | (s2, outs, some k) => (s2, outs, n1, .stop k)
+    | (s2, outs, none) =>
+      match tsPhaseC s2 (rest.drop n1) with
+      | .stop s3 k => (s3, outs, rest.length, .stop k)
+      | .go s3 n3 =>
+        match tsPhaseD s3 (rest.drop (n1 + n3)) with
+        | .stop s4 k => (s4, outs, rest.length, .stop k)
+        | .go s4 n4 =>
+          match tsPhaseE s4 with
+          | (s5, k) => (s5, outs, n1 + n3 + n4, k)
+
+/-- `demux_ts_packet` on the unread input `rest`: (state, frames, bytes consumed, how it returned) -/
+def tsRun : Nat → Bool → Bool → TsSt → Bytes → TsSt × List FrameOut × Nat × Stop
+  | 0, _, _, s, _ => (s, [], 0, .fault (.assertFail "ts_loop_fuel"))
+  | fuel + 1, hasCb, skipEmpty, s, rest =>
+    match tsStep hasCb skipEmpty s rest with
+    | (s', outs, n, .stop r) => (s', outs, n, r)
+    | (s', outs, n, .cont) =>
+      let (s2, outs2, n2, r) := tsRun fuel hasCb skipEmpty s' (rest.drop n)
+      (s2, outs ++ outs2, n + n2, r)
+
+/-- `demux_ts_packet (dx, &src, &src_left)` with `*src = buf + si` -/
+def tsLoop (fuel : Nat) (hasCb skipEmpty : Bool) (s : TsSt) (buf : Bytes) (si : Nat) :
+    TsSt × List FrameOut × Nat × Stop :=
+  match tsRun fuel hasCb skipEmpty s (buf.drop si) with
+  | (s', outs, n, r) => (s', outs, si + n, r)
 
 structure TsRes where
   st : TsSt
   frames : List FrameOut := []
   err : Option Err := none
+  stalled : Bool := false
   deriving DecidableEq, Repr
 
 def tsFuel (buf : Bytes) (si : Nat) : Nat := (buf.length - si) + 2
@@ -264,7 +308,7 @@ def tsCorDrain : Nat → Bool → Nat → TsSt → Bytes → Nat → Nat → TsR
       | (s', _, _, some e) => { st := s', err := some e }
       | (s', si', fo, none) =>
         let stall' := if si' = si ∧ fo.isNone then stall + 1 else 0
-        if stall' ≥ COR_STALL_LIMIT then { st := s', err := some (.assertFail "cor_livelock") }
+        if stall' ≥ COR_STALL_LIMIT then { st := s', stalled := true }
         else
           let r := tsCorDrain fuel skipEmpty stall' s' buf si' maxLines
           { r with frames := fo.toList ++ r.frames }
